@@ -91,12 +91,14 @@ br_rsa_i31_private(unsigned char *x, const br_rsa_private_key *sk)
 	 */
 	mq = tmp;
 	br_i31_decode(mq, q, qlen);
+	BR_VERIF_PUBLIC(mq, sizeof mq[0]);
 
 	/*
 	 * Decode p.
 	 */
 	t1 = mq + fwlen;
 	br_i31_decode(t1, p, plen);
+	BR_VERIF_PUBLIC(t1, sizeof t1[0]);
 
 	/*
 	 * Compute the modulus (product of the two factors), to compare
